@@ -73,7 +73,8 @@ static std::unordered_map<void *, LeakInfo> &ledger()
     if (!g_ledger) g_ledger = new std::unordered_map<void *, LeakInfo>();
     return *g_ledger;
 }
-void ledger_reset() { ledger().clear(); g_serial = 0; }
+static size_t g_live_bytes = 0;	// bytes in live blocks of both domains (the simulated machine's memory in use)
+void ledger_reset() { ledger().clear(); g_serial = 0; g_live_bytes = 0; }
 size_t ledger_live() { return ledger().size(); }
 size_t ledger_mark() { return (size_t)g_serial; }
 std::vector<LeakInfo> ledger_dump()
@@ -89,7 +90,7 @@ size_t ledger_forgive_yaml(long op)
 {
     size_t n = 0;
     for (auto it = ledger().begin(); it != ledger().end();) {
-	if (it->second.domain == 1 && it->second.op == op) { it = ledger().erase(it); ++n; }
+	if (it->second.domain == 1 && it->second.op == op) { g_live_bytes -= std::min(g_live_bytes, it->second.size); it = ledger().erase(it); ++n; }
 	else ++it;
     }
     return n;
@@ -98,12 +99,18 @@ static inline void ledger_add(void *p, size_t n, int domain, void *pc)
 {
     if (!p) return;
     LeakInfo li{n, domain, g_sim.op_index, pc, ++g_serial};
+    auto it = ledger().find(p);
+    if (it != ledger().end()) g_live_bytes -= std::min(g_live_bytes, it->second.size);
     ledger()[p] = li;
+    g_live_bytes += n;
 }
 static inline void ledger_del(void *p)
 {
     if (!p || !g_ledger) return;
-    g_ledger->erase(p);
+    auto it = g_ledger->find(p);
+    if (it == g_ledger->end()) return;
+    g_live_bytes -= std::min(g_live_bytes, it->second.size);
+    g_ledger->erase(it);
 }
 
 extern "C" int __sanitizer_symbolize_pc(void *pc, const char *fmt, char *out, size_t len) __attribute__((weak));
@@ -134,10 +141,14 @@ static void trace_fail(void *pc, const char *dom)
 // The simulated machine has SIM_RAM bytes for one block: a library request above that is
 // refused like a real allocator refuses it (ENOMEM), without counting as an injected fault.
 static const size_t SIM_RAM = (size_t)256 << 20;
+// ... and SIM_RAM_TOTAL bytes in all: a file that announces 65536 frequencies of a 1001-port network asks for 16 MB a
+// thousand times over; the machine runs out, cleanly, instead of the run timing out
+static const size_t SIM_RAM_TOTAL = (size_t)1 << 30;
 static inline int decide(void *pc, int *domain, size_t want = 0)
 {
     if (g_sim.in_lib <= 0) { *domain = -1; return 0; }
-    if (want > SIM_RAM) { *domain = 0; ++g_sim.n_toobig; return 1; }
+    // (and a million live blocks: a calibration file announcing 1001 x 7000 error terms asks for seven million small vectors)
+    if (want > SIM_RAM || g_live_bytes + want > SIM_RAM_TOTAL || (g_ledger && g_ledger->size() > 1000000)) { *domain = 0; ++g_sim.n_toobig; return 1; }
     if (is_yaml_pc(pc)) {
 	*domain = 1;
 	++g_sim.n_yaml; ++g_sim.total_yaml;
@@ -195,14 +206,14 @@ void *__wrap_realloc(void *old, size_t n)
     bool had = false;
     if (old && g_ledger) {
 	auto it = g_ledger->find(old);
-	if (it != g_ledger->end()) { keep = it->second; had = true; g_ledger->erase(it); }
+	if (it != g_ledger->end()) { keep = it->second; had = true; g_live_bytes -= std::min(g_live_bytes, keep.size); g_ledger->erase(it); }
     }
     void *p = __real_realloc(old, n);
     if (p == nullptr) {
-	if (had && n != 0) ledger()[old] = keep;
+	if (had && n != 0) { ledger()[old] = keep; g_live_bytes += keep.size; }
 	return p;
     }
-    if (had) { keep.size = n; ledger()[p] = keep; }
+    if (had) { keep.size = n; ledger()[p] = keep; g_live_bytes += n; }
     else if (dom >= 0) ledger_add(p, n, dom, pc);
     return p;
 }
